@@ -219,7 +219,20 @@ impl<'a> Evaluator<'a> {
             ExpressionFactor::FunctionCall { name, args, .. } => {
                 match self.functions.get(name.data.as_str()) {
                     Some(callback) => {
-                        let mut callback = callback.lock().unwrap();
+                        // A function is locked while it is applied, which includes the evaluation of its arguments: used
+                        // inside its own arguments it would wait for itself forever
+                        let mut callback = match callback.try_lock() {
+                            Ok(callback) => callback,
+                            Err(_) => {
+                                return self.error(
+                                    name.span,
+                                    format!(
+                                        "function '{}' cannot be used inside its own arguments",
+                                        &name.data
+                                    ),
+                                )
+                            }
+                        };
                         self.expect_args(name.span, args.len(), callback.expected_args())?;
                         callback.apply(self, &args.iter().map(|(expr, _)| expr).collect_vec())
                     }
